@@ -97,8 +97,85 @@ func c13History(r *carv2.Reader, hist []uint64) Val {
 	return out
 }
 
+// c13Consume uses a reader handed out by a Reader as a stream before it is reused as an io.ReaderAt.
+func c13Consume(rs io.ReadSeeker, ra io.ReaderAt, mode uint64) {
+	switch mode {
+	case 1:
+		io.ReadFull(rs, make([]byte, 7))
+	case 2:
+		io.Copy(io.Discard, rs)
+	case 3:
+		rs.Seek(5, io.SeekStart)
+		io.ReadFull(rs, make([]byte, 3))
+	case 4:
+		ra.ReadAt(make([]byte, 9), 2)
+		io.ReadFull(rs, make([]byte, 1))
+	}
+}
+
+// c13Reuse builds the io.ReaderAt the Reader under test is opened on: starting from the file, each
+// step opens a Reader on the current value, takes its DataReader (step 10+mode) or IndexReader
+// (20+mode), consumes it as a stream according to mode, and hands that very value on.  It also
+// returns the bytes a FRESH view of the same region holds (what every positioned read must see).
+func c13Reuse(o iOpts, file []byte, reuse []uint64) (io.ReaderAt, []byte, Val) {
+	var cur io.ReaderAt = bytes.NewReader(file)
+	eff := file
+	for _, st := range reuse {
+		r0, err := carv2.NewReader(cur, o.r().v2()...)
+		if err != nil {
+			return nil, nil, VL{VL{VT("reuseerr"), verr(err)}}
+		}
+		if st/10 == 1 {
+			dr, err := r0.DataReader()
+			if err != nil {
+				return nil, nil, VL{VL{VT("reuseerr"), verr(err)}}
+			}
+			c13Consume(dr, dr, st%10)
+			cur = dr
+			if r0.Version == 2 {
+				lo, hi := r0.Header.DataOffset, r0.Header.DataOffset+r0.Header.DataSize
+				if lo > uint64(len(eff)) {
+					lo = uint64(len(eff))
+				}
+				if hi > uint64(len(eff)) || hi < lo {
+					hi = uint64(len(eff))
+				}
+				eff = eff[lo:hi]
+			}
+		} else {
+			ir, err := r0.IndexReader()
+			if err != nil {
+				return nil, nil, VL{VL{VT("reuseerr"), verr(err)}}
+			}
+			if ir == nil {
+				return nil, nil, VL{VL{VT("reusenil")}}
+			}
+			rsa := ir.(interface {
+				io.ReadSeeker
+				io.ReaderAt
+			})
+			c13Consume(rsa, rsa, st%10)
+			cur = rsa
+			lo := r0.Header.IndexOffset
+			if lo > uint64(len(eff)) {
+				lo = uint64(len(eff))
+			}
+			eff = eff[lo:]
+		}
+	}
+	return cur, eff, nil
+}
+
 func runInspectImpl(o iOpts, file []byte, validate bool, hist []uint64) Val {
-	// the reference scan: the real BlockReader over the same bytes
+	return runInspectImplR(o, file, validate, hist, nil)
+}
+
+func runInspectImplR(o iOpts, file0 []byte, validate bool, hist []uint64, reuse []uint64) Val {
+	src, file, failed := c13Reuse(o, file0, reuse)
+	if failed != nil {
+		return failed
+	}
+	// the reference scan: the real BlockReader over a fresh view of the same bytes
 	var scan Val
 	if br, err := carv2.NewBlockReader(bytes.NewReader(file), o.r().v2()...); err != nil {
 		scan = VL{VT("openerr"), verr(err)}
@@ -132,9 +209,18 @@ func runInspectImpl(o iOpts, file []byte, validate bool, hist []uint64) Val {
 			}
 		}
 	}
-	r, err := carv2.NewReader(bytes.NewReader(file), o.r().v2()...)
+	// with a reuse chain: the same NewReader + Inspect on a FRESH view of the same bytes
+	var fresh Val = VL{VT("none")}
+	if len(reuse) > 0 {
+		if fr, err := carv2.NewReader(bytes.NewReader(file), o.r().v2()...); err != nil {
+			fresh = VL{VT("newerr"), verr(err)}
+		} else {
+			fresh = c13InspVal(fr.Inspect(validate))
+		}
+	}
+	r, err := carv2.NewReader(src, o.r().v2()...)
 	if err != nil {
-		return VL{VL{VT("newerr"), verr(err)}, scan, VL{VT("none")}, tscan, VL{}}
+		return VL{VL{VT("newerr"), verr(err)}, scan, VL{VT("none")}, tscan, VL{}, fresh}
 	}
 	histObs := c13History(r, hist)
 	insp := c13InspVal(r.Inspect(validate))
@@ -149,7 +235,7 @@ func runInspectImpl(o iOpts, file []byte, validate bool, hist []uint64) Val {
 			idx = VL{VT("idx"), VN(uint64(code))}
 		}
 	}
-	return VL{insp, scan, idx, tscan, histObs}
+	return VL{insp, scan, idx, tscan, histObs, fresh}
 }
 
 // inspectTables: the oracle tables of scanTables (what the BlockReader can ask about) plus the
@@ -183,13 +269,21 @@ func inspectTables(file []byte) (Val, Val) {
 }
 
 func emitInspect(c *Ctx, o iOpts, file []byte, validate bool, how string, hist []uint64, nontrivial bool) {
+	emitInspectR(c, o, file, validate, how, hist, nil, nontrivial)
+}
+
+func emitInspectR(c *Ctx, o iOpts, file []byte, validate bool, how string, hist []uint64, reuse []uint64, nontrivial bool) {
 	hok, hdrs := inspectTables(file)
 	hv := VL{}
 	for _, h := range hist {
 		hv = append(hv, VN(h))
 	}
-	in := VL{o.val(), VB(file), hok, hdrs, vbool(validate), VT(how), hv}
-	c.Emit("inspect", in, runInspectImpl(o, file, validate, hist), nontrivial)
+	rv := VL{}
+	for _, x := range reuse {
+		rv = append(rv, VN(x))
+	}
+	in := VL{o.val(), VB(file), hok, hdrs, vbool(validate), VT(how), hv, rv}
+	c.Emit("inspect", in, runInspectImplR(o, file, validate, hist, reuse), nontrivial)
 }
 
 func init() {
@@ -203,6 +297,12 @@ func init() {
 				hist = append(hist, uint64(h.(VN)))
 			}
 		}
-		return runInspectImpl(o, []byte(l[1].(VB)), l[4].(VN) != 0, hist)
+		var reuse []uint64
+		if len(l) > 7 {
+			for _, h := range l[7].(VL) {
+				reuse = append(reuse, uint64(h.(VN)))
+			}
+		}
+		return runInspectImplR(o, []byte(l[1].(VB)), l[4].(VN) != 0, hist, reuse)
 	})
 }
